@@ -40,3 +40,14 @@ Print Assumptions C07_juxtaposition_is_and.
 Print Assumptions C07_same_parse.
 Print Assumptions C07_same_parse_of_text.
 Print Assumptions C07_local_step.
+
+(* the property's own examples, on the model: instances of the theorems above *)
+Require LexWs SqlQueryText Api.
+Example c07_examples_of_the_property_text :
+  let P := fun s : String.string => Api.parse SqlQueryText.o_ex LexWs.cl_ascii ""%string s in
+  (exists e, P "NOT a:b c:d"%string = PTree e) /\
+  P "NOT a:b c:d"%string = P "NOT a:b AND c:d"%string /\ P "NOT a:b c:d"%string = P "(NOT a:b) AND c:d"%string /\
+  P "NOT a:b c:d"%string <> P "NOT (a:b AND c:d)"%string /\
+  P "-a:b c:d"%string = P "(-a:b) AND c:d"%string /\
+  P "a:b c:d e:f"%string = P "a:b AND c:d AND e:f"%string /\ P "a:b c:d e:f"%string = P "(a:b AND c:d) AND e:f"%string.
+Proof. vm_compute. repeat split; try reflexivity; try discriminate. eexists; reflexivity. Qed.
